@@ -5,7 +5,10 @@ Cases: (row count k, dump batch size n, load batch size m, row_group_size, compr
 file object / custom open_obj).  The REAL parquet.dump_to_file writes a file under /verif/work/C20/, the file is
 inspected with pyarrow (row counts of the row groups = the record batches actually written; rows via read_table)
 and read back with the REAL parquet.load_from_file.  Rows are identified by their index (every row carries its
-index; a row read back counts as row i only if it is EQUAL to source row i in every column).  The Coq model
+index; a row read back counts as row i only if it is EQUAL to source row i in every column).  Cases with a 'pat'
+field have REPEATED row content (constant, periodic, duplicated, plateau rows: several source rows are equal in
+every column, so that a whole dump batch can be equal to the batch before it); there the row read back at
+position j counts as row j only if it is equal to source row j in every column (positional identification).  The Coq model
 recomputes the batch-size sequence, the row order in the file and the loaded rows.
 Plus: rs.data.batch(n) alone, per-step emissions (kind 'batch')."""
 import math
@@ -20,8 +23,14 @@ RULE = ('cases: row count k x dump batch size n x load batch size m x row_group_
         '(none/snappy/gzip/zstd) x schema kind (flat ints/strings/floats; nested struct + list columns with nulls; '
         'wide with non-alphabetical column order) x path | file object | custom open_obj; exhaustive k 0..12 x n 1..6 x '
         'm in {1,2,5}; every k in 0..300 (quick) at least once; exact multiples k = j*n forced for every n of '
-        '{1,2,3,7,100,1000,1024,2000}; thorough: k sampled up to 5000. non-trivial = k > n (at least two batches '
-        'written); distinct = distinct case JSON')
+        '{1,2,3,7,100,1000,1024,2000}; thorough: k sampled up to 5000. Row CONTENT: all rows distinct (default) and, '
+        'field pat, REPEATED content spanning >= 2 full dump batches (several source rows equal in every column, so '
+        'that a whole batch can be equal by value to the batch before it): constant rows, periodic rows with period '
+        '1..4 and period = n / a divisor / a multiple of n, every row duplicated b times, random duplication of '
+        'the previous row, a constant plateau inside distinct rows; exhaustive k in {4,6,12,13} x n 1..6 x pattern '
+        'plus random k <= 300 (thorough: 2000); such rows are identified by POSITION (row j of the file must equal '
+        'source row j in every column). non-trivial = k > n (at least two batches written); distinct = distinct '
+        'case JSON')
 TRUSTED = ['NOT modelled: pyarrow (RecordBatch.from_arrays, ParquetWriter, compression codecs, ParquetFile.iter_batches, '
            'schemas/encodings). In the Coq model a record batch IS the list of its rows, the file IS the list of record '
            'batches written, reading returns them in order; this is tied to pyarrow by the correspondence test only',
@@ -73,6 +82,48 @@ def make_rows(kind, k, seed):
     return rows
 
 
+def content_index(case):
+    """pat cases: which base row every source row is a (fresh, equal) copy of"""
+    k, pat = case['k'], case['pat']
+    t = pat[0]
+    if t == 'const':
+        return [0] * k
+    if t == 'period':                   # i mod p
+        return [i % pat[1] for i in range(k)]
+    if t == 'blocks':                   # every row b times in a row
+        return [i // pat[1] for i in range(k)]
+    if t == 'plateau':                  # distinct rows, a constant stretch [a, a+l), distinct rows
+        a, l = pat[1], pat[2]
+        return [i if i < a else (a if i < a + l else i - l + 1) for i in range(k)]
+    if t == 'dups':                     # each row equals the previous one with probability 1/2
+        rng, out, c = random.Random(pat[1]), [], 0
+        for i in range(k):
+            if i and rng.random() < 0.5:
+                c += 1
+            out.append(c)
+        return out
+    raise ValueError('unknown row pattern %r' % (pat,))
+
+
+def source_rows(case):
+    """the rows pushed into dump_to_file: distinct dict objects; with `pat` several of them are equal by value"""
+    if not case.get('pat'):
+        return make_rows(case['schema'], case['k'], case['seed'])
+    import copy
+    ci = content_index(case)
+    base = make_rows(case['schema'], max(ci) + 1 if ci else 0, case['seed'])
+    return [copy.deepcopy(base[c]) for c in ci]
+
+
+def equal_consecutive_batches(case):
+    """number of full dump batches whose rows are equal (by value) to the rows of the batch before"""
+    if not case.get('pat'):
+        return 0
+    ci, n = content_index(case), case['n']
+    b = [ci[i:i + n] for i in range(0, len(ci), n)]
+    return sum(1 for x, y in zip(b, b[1:]) if x == y)
+
+
 def canon(v):
     """bit-exact, order-preserving canonical form of a row value"""
     if isinstance(v, float):
@@ -86,9 +137,15 @@ def canon(v):
     return (type(v).__name__, v)
 
 
-def indices(got, src_canon):
-    """row read back -> index of the source row it is equal to (all columns), else SENTINEL"""
+def indices(got, src_canon, positional=False):
+    """row read back -> index of the source row it is equal to (all columns), else SENTINEL.
+    positional (repeated row content: the id column does not identify a row): the row at position j is row j
+    iff it is equal to source row j in all columns."""
     out = []
+    if positional:
+        for j, r in enumerate(got):
+            out.append(j if j < len(src_canon) and isinstance(r, dict) and canon(r) == src_canon[j] else SENTINEL)
+        return out
     for r in got:
         i = r.get('id') if isinstance(r, dict) else None
         ok = isinstance(i, int) and 0 <= i < len(src_canon) and canon(r) == src_canon[i]
@@ -122,6 +179,28 @@ def mk(rng, k, n, m=None, **kw):
     return c
 
 
+def patterns(rng, k, n):
+    ps = [['const'], ['period', 2], ['period', 3], ['period', n], ['blocks', 2], ['dups', rng.randrange(10 ** 6)],
+          ['plateau', rng.randrange(0, max(1, k // 3)), rng.randrange(2 * n, max(2 * n, k) + 1)]]
+    if n > 1:
+        ps.append(['period', rng.choice([d for d in range(1, n + 1) if n % d == 0] + [2 * n, n + 1])])
+    return ps
+
+
+def repeated_content(rng, tier):
+    out = []
+    for k in (4, 6, 12, 13):
+        for n in range(1, 7):
+            for pat in patterns(rng, k, n):
+                out.append(mk(rng, k, n, rng.choice([1, 2, 5, 1024]), pat=pat, rg=rng.choice([None, None, 2])))
+    kmax = 300 if tier == 'quick' else 2000
+    for _ in range(40 if tier == 'quick' else 600):
+        n = rng.choice([1, 2, 3, 4, 5, 7, 16, 100])
+        k = rng.choice([n * rng.randrange(2, 6), n * rng.randrange(2, 6) + rng.randrange(0, n), rng.randrange(2 * n, kmax + 1)])
+        out.append(mk(rng, min(k, kmax), n, pat=rng.choice(patterns(rng, k, n))))
+    return out
+
+
 def generate(rng, tier):
     cases = [
         {'kind': 'pq', 'k': 4, 'n': 2, 'm': 3, 'rg': None, 'comp': 'snappy', 'schema': 'flat', 'io': 'path', 'seed': 1},
@@ -131,7 +210,8 @@ def generate(rng, tier):
     if tier == 'search':
         for _ in range(150):
             n = rng.choice([1, 2, 3, 4, 5, 7, 10])
-            cases.append(mk(rng, rng.choice([rng.randrange(0, 40), n * rng.randrange(0, 6)]), n))
+            k = rng.choice([rng.randrange(0, 40), n * rng.randrange(0, 6)])
+            cases.append(mk(rng, k, n, **({'pat': rng.choice(patterns(rng, k, n))} if rng.random() < 0.4 else {})))
         return cases
     # exhaustive small scope
     for k in range(0, 13):
@@ -162,6 +242,8 @@ def generate(rng, tier):
         kmax = 400 if tier == 'quick' else 5000
         k = rng.choice([rng.randrange(0, kmax + 1), min(kmax, n * rng.randrange(0, 5)), rng.randrange(0, 30)])
         cases.append(mk(rng, k, n))
+    # repeated row content (several source rows equal in every column) over at least two full batches
+    cases += repeated_content(rng, tier)
     # rs.data.batch alone
     for k in range(0, 14):
         for n in range(1, 6):
@@ -188,8 +270,9 @@ def run_impl(case):
     if os.path.exists(path):
         os.remove(path)
     schema = schema_of(case['schema'])
-    rows = make_rows(case['schema'], case['k'], case['seed'])
+    rows = source_rows(case)
     src_canon = [canon(r) for r in rows]
+    pos = bool(case.get('pat'))
     opened = []
 
     def my_open(f, mode='rb', **kw):
@@ -230,9 +313,9 @@ def run_impl(case):
             if len(first) >= cap:
                 break
         pf2.close()
-        file_idx = indices(first[:cap], src_canon)
+        file_idx = indices(first[:cap], src_canon, pos)
     else:
-        file_idx = indices(pq.read_table(path).to_pylist(), src_canon)
+        file_idx = indices(pq.read_table(path).to_pylist(), src_canon, pos)
     obs['file_n'] = total
     obs['file_runs'] = runs(file_idx)
     got, lend = [], []
@@ -251,7 +334,7 @@ def run_impl(case):
     finally:
         if fobj is not None:
             fobj.close()
-    load_idx = indices(got, src_canon)
+    load_idx = indices(got, src_canon, pos)
     obs['load_end'] = lend
     obs['load_n'] = len(load_idx)
     obs['load_runs'] = runs(load_idx)
@@ -277,10 +360,13 @@ def oracle(case, obs):
             sig, why = 'parquet:batch-duplicate-tail', 'the last batch is written twice'
         elif obs['file_n'] > k and flat[:n] == list(range(min(n, k))) and flat[n:2 * n] == list(range(min(n, k)))[:len(flat[n:2 * n])]:
             sig, why = 'parquet:buffers-not-cleared', 'the rows of the first batch appear again in the second record batch'
+        elif obs['file_n'] < k and fr and fr[0][0] == 0 and all(s == SENTINEL for s, l in fr[1:]):
+            sig, why = 'parquet:file-rows-missing', 'source rows are missing from the file (rows equal to earlier rows dropped?)'
         else:
             sig, why = 'parquet:file-rows-differ', 'file rows are not the source rows'
         return {'sig': sig, 'what': '%s: %d source rows, batch_size %d -> %d rows in the file, runs (start,len) %s, '
-                'row groups %s' % (why, k, n, obs['file_n'], fr[:6], obs['rg_sizes'][:8])}
+                'row groups %s%s' % (why, k, n, obs['file_n'], fr[:6], obs['rg_sizes'][:8],
+                                     ' row pattern %s' % case['pat'] if case.get('pat') else '')}
     if obs['load_end'] != ['completed'] or obs['load_runs'] != want:
         return {'sig': 'parquet:load-differs', 'what': 'load_from_file(batch_size=%d): end %s, runs %s, want %s'
                 % (case['m'], obs['load_end'], obs['load_runs'][:6], want)}
@@ -297,7 +383,8 @@ def nontrivial(case, obs):
 def describe(cases, obs):
     d = {'pq': 0, 'batch': 0, 'max_rows': 0, 'exact_multiples': 0, 'empty': 0, 'fewer_than_batch': 0,
          'equal_to_batch': 0, 'comp': {}, 'schema': {}, 'io': {}, 'with_row_group_size': 0, 'dump_batch_sizes': {},
-         'distinct_row_counts': 0, 'max_batches_written': 0}
+         'distinct_row_counts': 0, 'max_batches_written': 0, 'repeated_content': {},
+         'cases_with_a_batch_equal_to_the_previous_batch': 0, 'equal_consecutive_batches': 0}
     ks = set()
     for c, o in zip(cases, obs):
         d[c['kind']] += 1
@@ -316,6 +403,11 @@ def describe(cases, obs):
         b = str(n) if n in NS else 'other'
         d['dump_batch_sizes'][b] = d['dump_batch_sizes'].get(b, 0) + 1
         d['max_batches_written'] = max(d['max_batches_written'], math.ceil(k / n))
+        if c.get('pat'):
+            d['repeated_content'][c['pat'][0]] = d['repeated_content'].get(c['pat'][0], 0) + 1
+            e = equal_consecutive_batches(c)
+            d['equal_consecutive_batches'] += e
+            d['cases_with_a_batch_equal_to_the_previous_batch'] += e > 0
     d['distinct_row_counts'] = len(ks)
     return d
 
@@ -355,7 +447,12 @@ def coq_model_expr(case):
 
 
 def neighbours(case, rng):
-    return [mk(rng, rng.randrange(0, 30), rng.choice([1, 2, 3, 5])) for _ in range(20)]
+    out = [mk(rng, rng.randrange(0, 30), rng.choice([1, 2, 3, 5])) for _ in range(20)]
+    for _ in range(10):
+        n = rng.choice([1, 2, 3, 5])
+        k = n * rng.randrange(2, 5)
+        out.append(mk(rng, k, n, pat=rng.choice(patterns(rng, k, n))))
+    return out
 
 
 CLAIM = {
